@@ -54,3 +54,33 @@ contract('ActionScheduler.__init__@late', props=['C20'], for_cls=['ActionSchedul
          requires=dict(LATE, timetable='alive(schedule) and len(schedule) > 0 and all(e[0] >= 0 for e in schedule) and '
                                        'schedule is not System._instance._assets'),
          ensures=dict(POST, starts_in_the_first_state='self._schedule_index == 0 and self._state == self._schedule[0][1]'))
+
+# --------------------------------------------------------------------------- sensors created while the simulation runs
+from .sensors import SENSOR_INIT_PRE, STARTS_EMPTY, ONLY_PROBE_SERIES
+_PROBES_OK = SENSOR_INIT_PRE['probes_given_once_each']
+contract('Sensor.__init__@late', props=['C20'], for_cls=['Sensor'], invariants=False, fresh_self=True,
+         args={'probes': 'list[ref:Probe]', 'name': 'str', 'data_capacity': 'ext', 'value': 'real'},
+         requires=dict(LATE, probes_given_once_each=_PROBES_OK, parameters='data_capacity >= 1 and len(probes) > 0'),
+         ensures=dict(POST, **STARTS_EMPTY, **ONLY_PROBE_SERIES))
+contract('PeriodicSensor.__init__@late', props=['C20'], for_cls=['PeriodicSensor'], invariants=False, fresh_self=True,
+         args={'interval': 'real', 'probes': 'list[ref:Probe]', 'name': 'str', 'data_capacity': 'ext', 'value': 'real'},
+         requires=dict(LATE, probes_given_once_each=_PROBES_OK,
+                       parameters='data_capacity >= 1 and len(probes) > 0 and interval >= 0 and all(p != "time" for p in probes)'),
+         ensures=dict(POST, **STARTS_EMPTY,
+                      time_series_started_and_first_measurement_due_one_interval_after_creation=
+                      '"time" in self.data and len(self.data["time"]) == 0 and '
+                      'trace_kind(trace_len() - 1) == fn_id("schedule_event") and '
+                      'trace_real(trace_len() - 1, 0) == System._instance._env._now + interval and '
+                      'trace_fn(trace_len() - 1) == method(self, "_periodic_sense")'))
+contract('OutputPartSensor.__init__@late', props=['C20'], for_cls=['OutputPartSensor'], invariants=False, fresh_self=True,
+         args={'part_processor': 'ref:PartProcessor', 'part_probes': 'list[ref:Probe]', 'sensing_interval': 'int',
+               'name': 'str', 'data_capacity': 'ext', 'value': 'real'},
+         requires=dict(LATE, probes_given_once_each=_PROBES_OK.replace('probes', 'part_probes'),
+                       parameters='data_capacity >= 1 and len(part_probes) > 0 and sensing_interval >= 0 and '
+                                  'part_processor is not None and alive(part_processor)'),
+         ensures=dict(POST, **STARTS_EMPTY, **ONLY_PROBE_SERIES,
+                      hooked_onto_its_processor_once_and_first_part_is_measured=
+                      'self._counter == 0 and self._part_processor is part_processor and '
+                      'trace_kind(trace_len() - 1) == fn_id("add_finish_processing_callback") and '
+                      'trace_recv(trace_len() - 1) is part_processor and '
+                      'trace_fn(trace_len() - 1) == method(self, "_probe_part")'))
